@@ -665,6 +665,8 @@ def coq_ops(ops):
             out.append("OCommit %d" % o[1])
         elif o[0] == "fetchall":
             out.append("OFetchAll")
+        elif o[0] == "fetchnr":
+            out.append("OFetchNR %s %d" % (coq_bool(o[2]), o[1]))
         else:
             out.append("OFetch %s %d" % (coq_bool(o[2]), o[1]))
     return "[" + "; ".join(out) + "]"
@@ -672,7 +674,7 @@ def coq_ops(ops):
 
 # ---- running a case on the real code ----------------------------------------------------------------------
 
-EXPECTED = ("NoSuchRevision", "IncompatibleRepositories", "BzrError")
+EXPECTED = ("NoSuchRevision", "IncompatibleRepositories", "BzrError", "BzrCheckError")
 
 
 def _mk_branch(path, fmt):
@@ -728,6 +730,20 @@ def _do_fetch(case, tpath, r, fg, entry):
     elif entry == "all":
         tgt = open_repo(tpath, bool(case.get("fb")), case["tgt_via"])
         tgt.fetch(_r.Repository.open(src_url), find_ghosts=fg)
+    elif entry == "pull_ss":
+        # pull over the smart server from a STACKED source branch whose revisions all live in its own
+        # fallback (the materialised universe): requests for parent inventories go to the stacked
+        # source repository alone, which holds nothing
+        key = ("ssrc", ukey(u), case["src_fmt"])
+        if key not in _st["src"]:
+            sp = fresh_dir("ssrc")
+            sbr = _mk_branch(sp, case["src_fmt"])
+            sbr.set_stacked_on_url(url_of(source(u, case["src_fmt"])[1], "local"))
+            _st["src"][key] = sp
+        sp = _st["src"][key]
+        set_tip(_b.Branch.open(sp), u["g"], r)
+        tb = _b.Branch.open(url_of(tpath, case["tgt_via"]))
+        tb.pull(_b.Branch.open(url_of(sp, "smart")), stop_revision=rid(r), overwrite=True)
     elif entry == "sprout":
         # ControlDir.sprout into a location that does not exist yet (the empty target made by run_case is removed)
         from breezy import controldir
@@ -915,7 +931,8 @@ def model_term(case):
     p1g, late = phase1_graph(u)
     zf = sorted(anc_present(u["g"], late, case.get("fb") or []))
     zt = sorted(anc_present(u["g"], late, case.get("seed") or []))
-    ops = [("commit", o[1]) if o[0] == "commit" else ("fetchall",) if o[3] == "all" else ("fetch", o[1], o[2])
+    ops = [("commit", o[1]) if o[0] == "commit" else ("fetchall",) if o[3] == "all"
+           else ("fetchnr", o[1], o[2]) if o[3] == "pull_ss" else ("fetch", o[1], o[2])
            for o in case["ops"]]
     xtexts = []
     for x in case.get("extra", []):
